@@ -199,16 +199,16 @@ Theorem c06_xy_masked_atom_withheld :
 Proof. exact xy_masked_atom_withheld. Qed.
 Print Assumptions c06_xy_masked_atom_withheld.
 
-(** "for every sequence a per-atom view exists" is false: XY mode with an SLM
-    mask and a global channel without pulses makes [to_nested_dict()] raise
-    (finding, replayed on /repo) *)
-Theorem c06_nested_dict_total_refuted :
-  exists (chans : list (chan Z)) (mask : list Z),
-    forallb (wf_chan Z) chans = true /\
-    nested Z 0 1 Z.add Z.mul false chans mask = None /\
-    nested Z 0 1 Z.add Z.mul true chans mask <> None.
-Proof. exact nested_dict_crash_refuted. Qed.
-Print Assumptions c06_nested_dict_total_refuted.
+(** for every sequence a per-atom view exists: [to_nested_dict] never raises
+    (true since /repo commit 568e94cf; before it, XY mode with an SLM mask and
+    a global channel without pulses raised IndexError - the former witness is
+    kept as the regression [nested_dict_former_crash] and in corpus/C06) *)
+Theorem c06_nested_dict_total :
+  forall (T : Type) (zero one : T) (add mul : T -> T -> T) (all_local : bool)
+         (chans : list (chan T)) (mask : list Z),
+    exists d : ndict T, nested T zero one add mul all_local chans mask = Some d.
+Proof. exact nested_total. Qed.
+Print Assumptions c06_nested_dict_total.
 
 (** detuning-map weights: no trap under the atom -> weight zero; one trap -> its weight *)
 Theorem c06_weight_no_trap :
